@@ -51,3 +51,16 @@ Theorem C16_disconnect_reported_refuted :
   mem broken_witness reachable_set = true /\ no_callers broken_witness = true /\ wait_ok broken_witness = true.
 Proof. exact broken_witness_reachable. Qed.
 Print Assumptions C16_disconnect_reported_refuted.
+
+(* the classifications of wait() and serve() REGENERATED from lib.rs on this run (Gen.GenLife), which the life-cycle
+   model calls, and the statements of the small functions around them *)
+From VV Require Import Gen.GenLife Proofs.LifeProofs.
+Theorem C16_wait_classification_regenerated : forall k f, 1 <= k < 100 -> life_wait_ok k f = (k =? 4) || f.
+Proof. exact life_wait_ok_request_error. Qed.
+Print Assumptions C16_wait_classification_regenerated.
+Theorem C16_serve_forgives_regenerated : forall k, life_serve_forgives k = (k =? 1) || (k =? 2).
+Proof. exact life_serve_forgives_spec. Qed.
+Print Assumptions C16_serve_forgives_regenerated.
+Theorem C16_lifecycle_code_shape : life_shape_ok = true.
+Proof. exact life_shape_ok_true. Qed.
+Print Assumptions C16_lifecycle_code_shape.
